@@ -1,7 +1,7 @@
 \* exhaustive (quick): every mesh pair over H = 5, every profile, map back with and without a solver state (profile 3: ramps with unset array values)
 CONSTANTS H = 5  SrcPts = {1, 2, 3, 4}  DstPts = {1, 2, 3, 4}  Profiles = {1, 2, 3, 4, 11, 12, 13, 14, 15}  FuelChoices = {3}  SolveProfiles = {3}
-          Jitters = {"none"}  Ops = {"MakeUniform", "Solve", "MapBack"}  SnapFlags = {}
-          SnapProfiles = {}  MaxLevel = 5
+          Jitters = {"none"}  Ops = {"MakeUniform", "Solve", "MapBack", "Move"}  SnapFlags = {}
+          SnapProfiles = {}  MoveProfiles = {2}  Geoms = {"cold"}  MaxLevel = 5
 INIT Init
 NEXT Next
 CONSTRAINT Bound
